@@ -37,7 +37,7 @@ func (x *Exec) buildCaller(h *Heap) AV {
 		return x.caller
 	}
 	table := map[string]AV{}
-	for _, e := range x.c.A.Table {
+	for _, e := range x.c.table() {
 		var specs []AV
 		for _, s := range e.Args {
 			var ts []AV
@@ -246,7 +246,7 @@ func ruleCall(c *Ctx, mode string) *RuleResult {
 	}
 	names := []string{}
 	specs := map[string]*TableEntry{}
-	for _, e := range c.A.Table {
+	for _, e := range c.table() {
 		names = append(names, e.Key)
 		specs[e.Key] = e
 	}
@@ -563,7 +563,7 @@ func ruleKeys(c *Ctx) *RuleResult {
 	r := &RuleResult{Doc: "by-expression functions: with a non-empty array every success path has evaluated the expression reference at least once; sort_by/max_by/min_by return a value only when the (first) key is a number or a string; the sort adapters' Less records a failure whenever either key is not of the adapter's kind", Floor: 5}
 	fn := c.A.CallFunction
 	nonEmpty := []Atoms{AArrNum, AArrStr, AArrMix}
-	for _, e := range c.A.Table {
+	for _, e := range c.table() {
 		if !e.HasExpRef {
 			continue
 		}
